@@ -369,6 +369,37 @@ def r20_3(rep: Report, cls: ast.ClassDef) -> None:
                          'it returns', inc)
 
 
+def r20_6(rep: Report, cls: ast.ClassDef) -> None:
+    """the window size is an integer or None (unknown); 0 is a size.  A test of `self.size` by
+    truthiness treats an empty window like an unbounded one."""
+    rid = 'R20.6'
+    n = 0
+    for fn in methods(rep, cls):
+        construct = f'{BR}::BufferedReader.{fn.name}'
+        for t in ast.walk(fn):
+            tests = []
+            if isinstance(t, (ast.If, ast.While, ast.IfExp, ast.Assert)):
+                tests = [t.test]
+            elif isinstance(t, ast.BoolOp):
+                tests = list(t.values)
+            for e in tests:
+                neg = False
+                while isinstance(e, ast.UnaryOp) and isinstance(e.op, ast.Not):
+                    e, neg = e.operand, not neg
+                if isinstance(e, ast.BoolOp):
+                    continue
+                if norm(e) == 'self.size':
+                    rep.fail(rid, construct, f'truthiness of self.size @{norm(t)[:40]}',
+                             '`self.size` is tested by truthiness: a window of size 0 is treated as a window of '
+                             'unknown size (the next seek from the end adopts the length of the file)', t)
+                elif isinstance(e, ast.Compare) and norm(e.left) == 'self.size' \
+                        and isinstance(e.ops[0], (ast.Is, ast.IsNot)):
+                    n += 1
+                    rep.ok(rid, construct, f'{norm(e)} @{getattr(e, "lineno", 0)}')
+    if n == 0:
+        raise AnalysisError('BufferedReader: no `self.size is None` test found')
+
+
 def r20_4(rep: Report, cls: ast.ClassDef) -> None:
     rid = 'R20.4'
     fn = need(find_func(cls, 'cache'), f'{BR}::BufferedReader.cache')
@@ -556,9 +587,11 @@ def analyse(rep: Report) -> None:
     rep.rule('R20.2', 'returned byte strings are bounded by the window when its size is known', floor=5)
     rep.rule('R20.3', 'seek clamps pos into [0, size]; read advances by the length returned', floor=4)
     rep.rule('R20.4', 'cache eviction/insertion keep the counter paired; bucket keys are aligned', floor=6)
+    rep.rule('R20.6', 'the optional window size is tested with `is None`, never by truthiness', floor=3)
     rep.rule('R20.5', 'windowing call sites pass pos and size of one segment', floor=3)
     r20_1(rep, cls)
     r20_2(rep, cls)
     r20_3(rep, cls)
     r20_4(rep, cls)
+    r20_6(rep, cls)
     r20_5(rep)
